@@ -209,3 +209,14 @@ theorem close_trylock_counterexample :
     r'.1.closed = false ∧ peerConnWin r'.2 = r'.1.connIn.avail := by decide
 
 end Req.Props.C06
+
+namespace Req.Props.C06
+open Req.H2 Req.H2.Conn
+/-- /repo 5224b93: a 204 with Content-Length 10 whose stream stays open — 5000 octets of DATA are
+read and credited at both levels like any other (no "more than declared" abort); a 200 with the
+same declaration is aborted by the Read (RST_STREAM, connection-level credit only) -/
+example : (history (run exampleCfg [.peer (.settings []), .openStream 51 0 true, .peer (.resp 1 false 204 (some 10)),
+    .peer (.data 1 5000 0 false), .read 1 8192])).getLast? = some (.c (.windowUpdate 1 5000)) := by decide
+example : (history (run exampleCfg [.peer (.settings []), .openStream 51 0 true, .peer (.resp 1 false 200 (some 10)),
+    .peer (.data 1 5000 0 false), .read 1 8192])).getLast? = some (.c (.windowUpdate 0 5000)) := by decide
+end Req.Props.C06
